@@ -295,14 +295,18 @@ CHECKS['C20'] = {
             'Cursor.execute on one shared connection or on separate connections (same / different ledgers); scheduler-controlled '
             'BQL functions registered through the public extension point make every row / sub-expression evaluation (ysync) and '
             'points inside compilation (csync, constant-folded) switch points, exactly one thread runs at a time, and the solver '
-            'enumerates every schedule of the first 8 (shared) / 5 (separate) switch points for 11 statement pairs (balance '
-            'referenced twice per row, aggregates with a function of an aggregate, parameters, IN subqueries, FROM ... CLOSE '
-            'table copies, other tables, DISTINCT / ORDER BY); each thread\'s result must equal its serial result. Thorough: all '
-            '36 pairs and a three-thread condition.',
+            'enumerates every schedule of the first 7 (shared) / 5 (separate) switch points, followed by a sequential or a '
+            'strictly alternating tail, for 15 statement pairs (balance referenced twice per row, aggregates with a function of '
+            'an aggregate, parameters, IN subqueries, FROM ... CLOSE table copies, other tables, typed tables, other_accounts, '
+            'DISTINCT / ORDER BY); each thread\'s result must equal its serial result. A second family (C20.preempt) suspends one '
+            'statement once at the first occurrence of every source line it executes (sys.settrace; compilation and execution; '
+            'for statements that fail to parse also inside the generated parser), runs another statement to completion in a '
+            'second thread and resumes: single-preemption schedules at line granularity, enumerated natively. Thorough: all '
+            'pairs, a three-thread condition, second occurrences of every line.',
     'design_ref': 'DESIGN.md section 5, C20',
-    'note': _COMMON_NOTE + ' Interleavings finer than the marked switch points (between arbitrary bytecodes) are outside the '
-            'bound; the switch points cover every place where compiled-statement, compiler, cursor, aggregator, table-copy or '
-            'row-context state is read after having been written.',
+    'note': _COMMON_NOTE + ' Outside the bound: schedules with two or more preemptions at line granularity, preemptions between '
+            'the bytecodes of one line, and switch-point schedules beyond the stated depth. The C20.preempt family is enumerated '
+            'natively inside one solver path (the solver decides only connection sharing there).',
     'technique': 'solver-enumerated schedules (CrossHair/z3 path tree) driving real threads through scheduler-controlled BQL '
                  'functions; serial-equivalence oracle',
 }
